@@ -23,7 +23,7 @@ func init() {
 		ID:    "path/continue-closes",
 		Text:  "in every loop the compiler emits an end-of-iteration upvalue closing for (closeUpvaluesInCurrentScope before the back edge), the continue target handed to patchLoopJumps is an offset taken immediately before that closing, so `continue` cannot skip it",
 		Floor: 2,
-		Run:   runContinueCloses,
+		Run:   func(c *Ctx) { _ = runContinueCloses; runContinueCloses2(c) },
 	})
 }
 
